@@ -74,11 +74,13 @@ def gen_record(r, shape):
         ["boolean", "b", r.choice([True, False, None])], ["float", "f", r.choice(FLOATS)],
         ["bytes", "y", r.choice(BYTES)], ["string[]", "l", r.choice([["a", "b"], [], ["abc"], ["b", "B", "abc"]])],
         ["varint[]", "k", r.choice([[1, 2, 3], [], [5], [100, 7]])], ["record", "sub", sub],
+        ["path", "p", r.choice(["/tmp/x", "rel/y", "/tmp/X"])], ["net.ipaddress", "ip", r.choice(["1.2.3.4", "::1", "10.0.0.1"])],
     ]
     if shape == "nonmatching":
         drop = set(r.sample([f[1] for f in fields], r.randint(1, 4)))
         fields = [f for f in fields if f[1] not in drop]
-        return ["t/other", fields]
+        # half of the time under the SAME type name as the full layout (another version of the record type)
+        return ["t/main" if r.chance(50) else "t/other", fields]
     return ["t/main", fields]
 
 
@@ -223,6 +225,14 @@ class G:
             return f"(name(r) == {r.choice(['\"t/main\"', '\"t/other\"', '\"x\"'])})"
         if w == 2:
             return f"({r.choice(['\"t/main\"', '\"t/x\"'])} in names(r))"
+        if r.chance(25):
+            # fields that are not plain text: a path, an address (equal to its text form), a list, a number
+            fields = r.choice(["['p']", "['ip']", "['l']", "['n', 's']", "['ip', 'p', 'nosuch']", "['l', 't']"])
+            strs = r.choice(["['/tmp/x']", "['1.2.3.4']", "['a']", "['::1', 'abc']", "['10.0.0.1', '/tmp/X']", "['5']"])
+            kw = r.choice(["", ", nocase=False"])
+            return f"field_equals(r, {fields}, {strs}{kw})"
+        if r.chance(15):
+            return f"field_regex(r, {r.choice(['[\'s\']', '[\'s\', \'t\']', '[\'t\', \'nosuch\']'])}, {r.choice(['\'a.c\'', '\'^b\'', '\'B|x\'', '\'abc\''])})"
         fields = r.choice(["['s']", "['s', 't']", "['t', 'nosuch']", "['nosuch']", "('s',)"])
         strs = "[" + ", ".join(self.const_str() for _ in range(r.randint(1, 2))) + "]"
         kw = r.choice(["", "", ", nocase=False", ", nocase=True"])
@@ -317,10 +327,94 @@ class RefType:
     __hash__ = None
 
 
+# The documented meaning of the helper functions, written from their docstrings (NOT the library's code: a helper that
+# both engines share can only be checked against an independent reference).
+def _R_lower(s):
+    return s.lower() if isinstance(s, str) else s
+
+
+def _R_upper(s):
+    return s.upper() if isinstance(s, str) else s
+
+
+def _R_name(r):
+    from flow.record.base import Record
+    return r._desc.name if isinstance(r, Record) else "UnknownRecord"
+
+
+def _R_names(r):
+    from flow.record.base import GroupedRecord, Record
+    if isinstance(r, GroupedRecord):
+        return {m._desc.name for m in r.records}
+    if isinstance(r, Record):
+        return {r._desc.name}
+    return ["UnknownRecord"]
+
+
+def _R_get_type(o):
+    return str(type(o))
+
+
+def _R_has_field(r, field):
+    return field in [n for n in r._desc.fields]
+
+
+def _present(r, fields):
+    for f in fields:
+        try:
+            yield getattr(r, f)
+        except AttributeError:
+            continue          # "Non existing fields on the Record object are skipped"
+
+
+def _R_field_equals(r, fields, strings, nocase=True):
+    want = [_R_lower(s) for s in strings] if nocase else list(strings)
+    for v in _present(r, fields):
+        v = _R_lower(v) if nocase else v
+        for s in want:
+            if s == v:
+                return True
+    return False
+
+
+def _R_field_contains(r, fields, strings, nocase=True, word_boundary=False):
+    import re as _re
+    want = [_R_lower(s) for s in strings] if nocase else list(strings)
+    for v in _present(r, fields):
+        v = _R_lower(v) if nocase else v
+        for s in want:
+            if not word_boundary:
+                if s in v:
+                    return True
+            else:
+                if v is None:
+                    if s is None:
+                        return True
+                    continue
+                if isinstance(v, str) and _re.search("\\b{}\\b".format(_re.escape(s)), v) is not None:
+                    return True
+    return False
+
+
+def _R_field_regex(r, fields, regex):
+    import re as _re
+    pat = _re.compile(regex)
+    for v in _present(r, fields):
+        if _re.search(pat, v) is not None:
+            return True
+    return False
+
+
+REF_HELPERS = {"lower": _R_lower, "upper": _R_upper, "name": _R_name, "names": _R_names, "get_type": _R_get_type,
+               "field_contains": _R_field_contains, "field_equals": _R_field_equals, "field_regex": _R_field_regex,
+               "has_field": _R_has_field}
+
+
 def _ref_namespace(rec):
     import flow.record.selector as sel
     from flow.record.fieldtypes import net
-    ns = {f.__name__: f for f in sel.FUNCTION_WHITELIST}
+    ns = {f.__name__: f for f in sel.FUNCTION_WHITELIST}     # any helper added later keeps the library's meaning
+    ns.update(REF_HELPERS)
     ns.update({"r": rec, "Type": RefType(rec), "net": net, "any": any, "all": all, "str": str, "repr": repr,
                "__builtins__": {}})
     return ns
